@@ -324,16 +324,20 @@ def helper_rules(ctx, rule: str):
         n += 1
     r.floor(rule + ".isabstract", 80)
     # cutter_check accepts the declared cutters and is what __new__ consults
-    cc = p.get_func("moclo.core._utils.cutter_check")
+    from .roles import cutter_check_function
+    cc = cutter_check_function(p)
+    lead = ()
+    if cc.owner is not None and cc.kind != "staticmethod":
+        lead = (cc.owner,) if cc.kind == "classmethod" else (AObj(cc.owner, {}, name="x"),)
 
     def make_args2(I):
-        return (AEnzymeV(True), "SomeClass"), {}
+        return lead + (AEnzymeV(True), "SomeClass"), {}
 
     emit(ctx, run_paths(ctx, cc, make_args2, [], post=lambda I, o: [(rule + ".cutter-check", cc.qualname, o.kind == "return" and o.value is None,
                                                                 "a 5'-overhang, known, non-blunt cutter must be accepted: %r" % (o,))]), cc.where())
 
     def make_args3(I):
-        return (NotImplemented, "SomeClass"), {}
+        return lead + (NotImplemented, "SomeClass"), {}
 
     emit(ctx, run_paths(ctx, cc, make_args3, [], post=lambda I, o: [(rule + ".cutter-check", cc.qualname + "#undeclared", o.kind == "raise",
                                                                 "a class without cutter must be refused: %r" % (o,))]), cc.where())
@@ -850,6 +854,11 @@ def characterize_rule(ctx, rule: str):
             if v:
                 expected = ("valid", c)
                 break
+        tests = [e for e in o.path.effects if e[0] == "text-test"]
+        out.append((rule + ".text-test", name, not tests,
+                    "which type a record has is decided by the candidates' is_valid() alone; a literal test on the record's text (%s) is "
+                    "case-sensitive and reads one strand: the same plasmid spelled in lower case is typed differently"
+                    % "; ".join("%r %s record" % (e[2], e[1]) for e in tests)))
         cands = [e for e in o.path.effects if e[0] == "candidate"]
         okrec = all(e[2] and e[2][0] is I.rec for e in cands)
         out.append((rule + ".validated-return", name + "#record", okrec, "every candidate must be built from the record being characterised"))
